@@ -380,6 +380,109 @@ def x86_part(run, quick):
     run.cov["x86_native_cases"] = done
 
 
+ALU_OPS = ["ADD", "ADC", "SUB", "SBB", "CMP", "AND", "OR", "XOR", "TEST", "INC", "DEC", "NEG", "NOT"]
+ALU_BIN = {"ADD": 0x00, "OR": 0x08, "ADC": 0x10, "SBB": 0x18, "AND": 0x20, "SUB": 0x28, "XOR": 0x30, "CMP": 0x38, "TEST": 0x84}
+ALU_UN = {"INC": (0xFE, 0), "DEC": (0xFE, 1), "NOT": (0xF6, 2), "NEG": (0xF6, 3)}
+
+
+def alu_encode(op, n):
+    """register form: destination rbx (rm=3), source rcx (reg=1)"""
+    pre = {8: b"", 16: b"\x66", 32: b"", 64: b"\x48"}[n]
+    if op in ALU_BIN:
+        return pre + bytes([ALU_BIN[op] | (0 if n == 8 else 1), 0xC0 | (1 << 3) | 3])
+    o, ext = ALU_UN[op]
+    return pre + bytes([o | (0 if n == 8 else 1), 0xC0 | (ext << 3) | 3])
+
+
+def alu_part(run, quick):
+    """amoco's semantics of the register forms of the integer ALU instructions (and the host CPU) against the Gallina model of
+    the Intel SDM, Amoco.C06.X86Alu.alu (destination and the flags the manual defines), evaluated by the Coq kernel"""
+    import amoco.arch.x64.cpu_x64 as cpu
+    lib = native_lib(run)
+    sc = lib.get_scratch() if lib is not None else 0
+    rng = random.Random(run.seed * 977 + 41)
+    rows, meta = [], []
+    for n in (8, 16, 32, 64):
+        m = (1 << n) - 1
+        vals = [0, 1, 2, 0xF, 0x10, 0x7F & m, 0x80 & m, m, m - 1, m >> 1, (m >> 1) + 1, (m >> 1) + 2, 0x55 & m, 0xAA & m]
+        vals += [rng.getrandbits(n) for _ in range(4 if quick else 24)]
+        for k, op in enumerate(ALU_OPS):
+            pairs = [(a, b) for a in vals for b in (vals if op in ALU_BIN else [0])]
+            if len(pairs) > (40 if quick else 400):
+                pairs = rng.sample(pairs, 40 if quick else 400) + [(0, 0), (m, m), (m, 1), ((m >> 1) + 1, 1), (m >> 1, 1), (0, 1), (0x10 & m, 1), (0xF, 1)]
+            for a, b in pairs:
+                cin = rng.getrandbits(1)
+                code = alu_encode(op, n)
+                regs = [rng.getrandbits(64) for _ in range(16)]
+                regs[3] = (regs[3] & ~m) | a
+                regs[1] = (regs[1] & ~m) | b
+                flags = (rng.getrandbits(12) & 0x8D4) | cin
+                base = (sc + 0x8000) if sc else 0x10000
+                for kk in XG.PTR_REGS:
+                    if kk not in (1, 3):
+                        regs[kk] = base + 56
+                rep = {"isa": "x64", "code": code.hex(), "regs": regs, "flags": flags, "mem": "", "op": op, "width": n, "a": a, "b": b, "carry_in": cin}
+                try:
+                    r = x86_amoco(cpu, code, regs, flags, b"", base)
+                except Exception as x:
+                    run.violation("x64|%s|raised|%s" % (op, type(x).__name__), "%s (%s): executing the semantics raised %r" % (op, code.hex(), x), rep)
+                    continue
+                if r is None:
+                    run.violation("x64|%s|not-decoded" % op, "amoco does not decode %s" % code.hex(), rep)
+                    continue
+                i, out, fl, sym, mw, rip = r
+                if not isinstance(out[3], int):
+                    run.violation("x64|%s|%d|reg" % (op, n), "%s %s: destination left symbolic: %s" % (op, code.hex(), out[3]), rep)
+                    continue
+                res = out[3] & m
+                if op in ("CMP", "TEST"):
+                    res = -1 if out[3] == regs[3] else res
+                fw = fl
+                for name, bit, txt in sym:
+                    fw ^= 0            # a symbolic flag keeps bit 0 in fl: reported below if the manual defines it
+                rows.append("(%d, %d, %s, %s, %d, (%s, %d))" % (k, n, zl(a), zl(b), cin, zl(res), fw))
+                meta.append((rep, "amoco", sym))
+                run.count(("alu", op, n, a, b, cin), nontrivial=True)
+                run.hist("x86_alu_model_cases", "%s/%d" % (op, n))
+                if sc:
+                    st = St()
+                    for kk in range(16):
+                        st.r[kk] = regs[kk]
+                    st.rflags = flags
+                    if lib.run(code, len(code), ctypes.byref(st)) == 0:
+                        nres = st.r[3] & m
+                        if op in ("CMP", "TEST"):
+                            nres = -1 if st.r[3] == regs[3] else nres
+                        rows.append("(%d, %d, %s, %s, %d, (%s, %d))" % (k, n, zl(a), zl(b), cin, zl(nres), st.rflags & 0x8D5))
+                        meta.append((rep, "cpu", []))
+    hdr = "From Coq Require Import ZArith List.\nImport ListNotations.\nRequire Import Amoco.C06.Flags Amoco.C06.X86Alu.\nOpen Scope Z_scope.\n"
+    shards = [(i, rows[i:i + 500]) for i in range(0, len(rows), 500)]
+    texts = [("alu_%03d" % (i // 500), hdr + "Definition cases : list alu_case := [\n%s\n].\nEval vm_compute in (bad_from check_alu 0 cases).\n" % ";\n".join(sh)) for i, sh in shards]
+    res = common.coq_eval_many(run.work / "alu", texts)
+    n_ok = 0
+    for i, sh in shards:
+        rc, outp = res["alu_%03d" % (i // 500)]
+        lists = common.parse_nat_list(outp)
+        if rc != 0 or len(lists) != 1:
+            run.violation("model-eval|alu", "x86 ALU model evaluation failed", {"theorem_or_correspondence": "Amoco.C06.X86Alu.check_alu", "output": outp[-800:]}, found_input=False)
+            continue
+        n_ok += len(sh)
+        for idx in lists[0][:4]:
+            rep, who, sym = meta[i + idx]
+            if who == "cpu":
+                run.violation("model-vs-cpu|%s|%d" % (rep["op"], rep["width"]), "the Gallina ALU model disagrees with the host CPU (the model is wrong): %s" % sh[idx], dict(rep, case=sh[idx]), found_input=False)
+            else:
+                run.violation("x64|%s|%d|alu-model" % (rep["op"], rep["width"]),
+                              "%s/%d a=%#x b=%#x carry=%d (%s): amoco's destination / defined flags differ from the manual's (Amoco.C06.X86Alu.alu): case %s"
+                              % (rep["op"], rep["width"], rep["a"], rep["b"], rep["carry_in"], rep["code"], sh[idx]), dict(rep, case=sh[idx]))
+    run.cov["x86_alu_model_cases_in_coq"] = n_ok
+    run.cov["traces_validated_against_impl"] = run.cov.get("traces_validated_against_impl", 0) + n_ok
+
+
+def zl(v):
+    return "(%d)" % v if v < 0 else str(v)
+
+
 def check(run):
     quick = run.tier == "quick"
     isa.load_all()
@@ -421,9 +524,11 @@ def check(run):
     run.cov["model_cases"] = ok
     run.cov["traces_validated_against_impl"] = run.cov.get("traces_validated_against_impl", 0) + ok
     x86_part(run, quick)
+    alu_part(run, quick)
     run.cov["trusted_base"] += ["coq/C06/RV.v is the reference (written from the RISC-V manual); harness/rvref.py mirrors it for diagnostics only",
                                 "native/x86run.c trampoline (register/flag load and store around the instruction) and the CPU of this machine",
-                                "harness/x86gen.py: encodings and the table of architecturally defined flags per instruction"]
+                                "harness/x86gen.py: encodings and the table of architecturally defined flags per instruction",
+                                "coq/C06/X86Alu.v is written from the Intel SDM; on every run it is compared with the host CPU as well as with amoco"]
     run.assumptions += ["x86: instructions that touch rsp, transfer control (other than Jcc via SETcc), fault, or use rip-relative / segment-override addressing are not generated; "
                         "MUL/DIV/IDIV one-operand forms, BT*, BS*, SHLD/SHRD, CMPXCHG, string instructions and IA-32-only encodings are outside the generated subset",
                         "RISC-V: memory accesses that wrap around the top of the address space are not generated"]
